@@ -1,7 +1,9 @@
 import vp
 PROGS = {
  # name: (source format with %u a(16 bit) %u b %u c %u a, WORDS, BPA, LOW, EXPECT_BYTES, gap offsets)
- "msp430": (".msp430\\n.org 0x200\\nstart:\\n  mov.w #%u, r5\\n  add.w r5, r6\\n  .db %u, %u, 3\\n  .dw %u\\n  jmp start\\n", 1, 1, 0x200, 14, "7,"),
+ "msp430": (".msp430\\n.org 0x200\\nstart:\\n  mov.w &%u, r5\\n  add.w r5, r6\\n  .db %u, %u, 3, 4\\n  .dw %u\\n  jmp start\\n", 1, 1, 0x200, 14, ""),
+ # an instruction after an odd number of data bytes: the assembler pads with one 0 byte (offset 11), which is not program content
+ "msp430_odd": (".msp430\\n.org 0x200\\nstart:\\n  mov.w &%u, r5\\n  add.w r5, r6\\n  .db %u, %u, 3\\n  .dw %u\\n  jmp start\\n", 1, 1, 0x200, 13, "11,"),
  "6502":   (".6502\\n.org 0x300\\n  lda #%u & 255\\n  sta 0x10\\n.db %u, %u\\n  jmp %u\\n", 0, 1, 0x300, 9, ""),
  "z80":    (".z80\\n.org 0x100\\n  ld hl, %u\\n  ld a, %u\\n.db %u\\n  jp %u\\n", 0, 1, 0x100, 9, ""),
 }
